@@ -44,10 +44,12 @@ def register(reg):
                  ensures=['self.violations == old(self.violations) + ' + COUNT])
 
     # ---- where a problem is reported -----------------------------------------------------------------------------
-    reg.contract(M, 'Documentable.description', returns='Str', pure=True, reads=['name', 'parent', 'source_path'],
-                 raises={}, assumed=True, source='file path or module name of the object (names the file)')
     reg.contract(M, 'Documentable.module', returns='Ref[Module]', pure=True, reads=['parentMod'], raises={},
                  assumed=True, source='every reported object has its module set (C02)')
+    # the '<file>' part is the object's own source path (the file that holds its text), not that of the module it now lives in
+    reg.contract(M, 'Documentable.description', returns='Str', raises={},
+                 ensures=['implies(self.source_path is not None, result == str(self.source_path))',
+                          'implies(self.source_path is None, result == self.module.fullName())'])
     LINE = ("(str(base_line(self.docstring_lineno, self.linenumber, section) + lineno_offset) "
             "if base_line(self.docstring_lineno, self.linenumber, section) != 0 else "
             "(str(lineno_offset) if lineno_offset != 0 and self.module == self else '???'))")
